@@ -3,7 +3,7 @@ pixel/cell/flag/note oracle written from the documented semantics."""
 from common import hx
 import implutil as U
 
-ASSUMPTIONS = ['arguments are in contract (ids/coords in range, colours 0..15 or TRANSPARENT, Map has its Gfx attached)']
+ASSUMPTIONS = ['rows of pixels/tiles are passed as lists, tuples, bytes or bytearrays (any sequence of ints)', 'arguments are in contract (ids/coords in range, colours 0..15 or TRANSPARENT, Map has its Gfx attached)']
 TRUSTED_EXTRA = ['modelled by hand: gfx.py get/set_sprite, map.py get/set_cell, get/set_rect_tiles, gff.py flags, '
                  'sfx.py notes/properties, music.py channels/properties']
 
@@ -114,12 +114,28 @@ def ob(v):
     return 'n' if v is None else ('t' if v else 'f')
 
 
+def as_rows(rows, op):
+    """the same pixel/tile data handed over as each sequence type a caller may use: lists, tuples, bytes, bytearrays (what
+    get_rect_tiles / get_sprite return); the choice is a deterministic function of the operation"""
+    kind = sum(len(r) for r in rows) + len(rows) + op[1] + op[2]
+    kind %= 5
+    if kind == 0:
+        return rows
+    if kind == 1:
+        return tuple(tuple(r) for r in rows)
+    if kind == 2:
+        return [bytearray(r) for r in rows]
+    if kind == 3:
+        return [bytes(r) for r in rows]
+    return [bytearray(r) if i % 2 else list(r) for i, r in enumerate(rows)]
+
+
 def apply_impl(g, op):
     k = op[0]
     if k == 'getsprite':
         return 'ok ' + rows_arg(g.gfx.get_sprite(op[1], op[2], op[3]))
     if k == 'setsprite':
-        g.gfx.set_sprite(op[1], op[4], tile_x_offset=op[2], tile_y_offset=op[3]); return None
+        g.gfx.set_sprite(op[1], as_rows(op[4], op), tile_x_offset=op[2], tile_y_offset=op[3]); return None
     if k == 'getcell':
         return 'ok %d' % g.map.get_cell(op[1], op[2])
     if k == 'setcell':
@@ -127,7 +143,7 @@ def apply_impl(g, op):
     if k == 'getrect':
         return 'ok ' + rows_arg(g.map.get_rect_tiles(op[1], op[2], op[3], op[4]))
     if k == 'setrect':
-        g.map.set_rect_tiles(op[3], op[1], op[2]); return None
+        g.map.set_rect_tiles(as_rows(op[3], op), op[1], op[2]); return None
     if k == 'getflags':
         return 'ok %d' % g.gff.get_flags(op[1], op[2])
     if k in ('setflags', 'clearflags', 'resetflags'):
